@@ -57,6 +57,10 @@ def run(chk):
         k, n = X.shape
         if rng.random() < 0.35:
             X = X * float(2 ** int(rng.integers(12, 41)))          # the same data in large units (up to ~1e12): small weights
+        if rng.random() < 0.2:
+            # a few sensors measured in units 2^20 larger than the rest: their discriminant weights are small but not zero
+            X = X.copy()
+            X[:, rng.choice(n, size=int(rng.integers(1, 4)), replace=False)] *= 2.0 ** 20
         bcfg = U.basis_cfg(rng, n, k)
         if ncls > 2 and rng.random() < 0.4 and bcfg["kind"] != "Identity":
             bcfg["n_basis_modes"] = min(ncls, n - 1, k - 1) if min(ncls, n - 1, k - 1) >= 2 else bcfg["n_basis_modes"]
